@@ -201,10 +201,10 @@ Proof. exact symeig_method_prelude_refines. Qed.
 Print Assumptions C18_translated_symeig_prelude_is_model.
 
 From XV Require Gen.PyDispatchRF.
-Theorem C18_translated_equilibrium_prelude_is_model : forall t m,
+Theorem C18_translated_equilibrium_prelude_is_model : forall t m pf nf,
   let m' := lower_meth (with_default "broyden1" m) in
-  PyDispatchRF.equilibrium_method_prelude (meth_obj m) (tbl_obj t) =
-  Ok (meth_obj m', if in_table m' t then "equilibrium" else "rootfinder").
+  PyDispatchRF.equilibrium_method_prelude (meth_obj m) pf nf (tbl_obj t) =
+  Ok (meth_obj m', if in_table m' t then "equilibrium" else "rootfinder", if in_table m' t then pf else nf).
 Proof. exact equilibrium_method_prelude_refines. Qed.
 Print Assumptions C18_translated_equilibrium_prelude_is_model.
 
